@@ -396,7 +396,7 @@ def l1_violation(unit, pattern, card, base, bad, outrepr, kind='card'):
 
 
 # ------------------------------------------------------------------ layer 3
-def trcl_deck(rnd):
+def trcl_deck(rnd, force_sp=None):
     d = dk.Deck()
     pre = []
     bud = gen.Budget(rnd, 3)
@@ -424,6 +424,8 @@ def trcl_deck(rnd):
         d.surfs = [dk.Surf(1, 'tz', [Fr(0), Fr(0), a, Fr(3), Fr(1), Fr(1, 2)])]
         e1 = ('s', -1)
     sp = rnd.choice(['num', 'inline3', 'inline12', 'star', 'numstar'])
+    if force_sp:
+        sp = force_sp
     c1 = dk.Cell(1, e1, imp=1)
     if sp == 'num':
         d.trs[4] = (gen.rand_tr(rnd, 't', pre, budget=bud), False)
